@@ -363,8 +363,10 @@ theorem logStep_good (fx : Fixes) (thr : Nat) (st : LogSt) (i : LogItem) (st' : 
   | error code => simp [logStep] at h
   | assertStr b =>
     simp only [logStep] at h
-    cases b <;> simp [assertString, liftE, bind, Except.bind, pure, Except.pure] at h
-    subst h; exact hst
+    split at h
+    · cases h; exact hst
+    · cases b <;> simp [assertString, liftE, bind, Except.bind, pure, Except.pure] at h
+      subst h; exact hst
   | derefGetter p =>
     simp only [logStep] at h
     split at h
